@@ -185,6 +185,8 @@ func TestHistory(t *testing.T) {
 			ibs := &integrityblock.IntegrityBlockSigner{WebBundleHash: hash, IntegrityBlock: blk}
 			k := c.Int("signings", 1, 4)
 			good := 0
+			type kept struct{ got, want []byte }
+			var earlierBlocks []kept
 			allowFaults := c.Bool("allowHsmFaults")
 			var fired []string
 			for i := 0; i < k; i++ {
@@ -238,6 +240,14 @@ func TestHistory(t *testing.T) {
 					c.Violation("cbor-error", "IntegrityBlock.CborBytes", "%v", berr)
 				}
 				checkBlock(c, bb, hash, good, "after signing")
+				earlierBlocks = append(earlierBlocks, kept{bb, append([]byte(nil), bb...)})
+			}
+			if c.Oracle("C07") {
+				for i, k := range earlierBlocks {
+					if !bytes.Equal(k.got, k.want) {
+						c.Violation("result-changed-later", "IntegrityBlock.CborBytes", "the block bytes returned after signing %d were modified by later calls", i)
+					}
+				}
 			}
 			c.Outcome(fmt.Sprintf("nt:signed%d", good))
 			c.Sig("k%d/%v", k, fired)
